@@ -8,6 +8,8 @@ From MV Require Import Opt.OptSafe.
 From MV Require Import Opt.YamlSpec.
 From MV Require Import Opt.OptAgreeAll.
 From MV Require Import Opt.OptNul.
+From MV Require Import Opt.OptMarksDef.
+From MV Require Import Opt.OptSrcLib.
 From MV Require Import Gen.OptSrc.
 From MV Require Import Opt.OptSrcTop.
 From MV Require Import Opt.OptSrcCompose.
@@ -35,3 +37,14 @@ Proof. rewrite full_refines. apply yaml_agree. Qed.
 
 Theorem nul_truncates_src (a b : str) : options_to_items_full (a ++ 0 :: b) = options_to_items_full a.
 Proof. rewrite !full_refines. apply nul_truncates. Qed.
+
+(* class StreamBuffer as translated from the source = the primitives of the model *)
+Theorem streambuffer_src (s : stream) (k : nat) (text : str) :
+  peek_src s k = peek s k /\ prefix_src s k = prefix s k /\ forward_src s k = forward s k /\
+  get_position_src s = (s_idx s, s_line s, s_col s) /\ new_stream_src text = new_stream text.
+Proof. repeat split; [apply peek_src_eq | apply forward_src_eq]. Qed.
+
+Theorem clone_positions_src text lo co p :
+  clone_src (OptMarksDef.error_mark text 0 0 p) lo co = OptMarksDef.error_mark text lo co p /\
+  reraise_mark_src (OptMarksDef.error_mark text 0 0 p) lo co = OptMarksDef.error_mark text lo co p.
+Proof. split; [apply clone_src_positions | apply reraise_mark_src_eq]. Qed.
